@@ -159,6 +159,7 @@ class Builder:
         self.loops: List[Tuple[Node, Node]] = []  # (continue target, break target)
         self.handlers: List[List[Tuple[Optional[ast.expr], Node]]] = []  # innermost last
         self.finals: List[Node] = []
+        self.scopes: List[Tuple[str, object]] = []  # ("handlers", frame) / ("finally", node), innermost last: what an exception meets on its way out
         self.caught: List[Optional[ast.expr]] = []  # type of the handler whose body is being built, innermost last
         self.exc_matcher = exc_matcher or (lambda raised, caught: caught is None)
 
@@ -186,7 +187,9 @@ class Builder:
             # superclass of T takes it for sure, a handler for a subclass of T may
             held = self.caught[-1]
             targets = []
-            for frame in reversed(self.handlers):
+            for kind, frame in reversed(self.scopes):
+                if kind == "finally":
+                    return targets + [frame]  # the finally block runs first; the exception travels on from its end
                 for caught, node in frame:
                     if self.exc_matcher(held, caught):
                         return targets + [node]
@@ -196,10 +199,14 @@ class Builder:
         if raised is None:
             # bare re-raise / unknown exception: any enclosing handler may match
             targets: List[Node] = []
-            for frame in reversed(self.handlers):
+            for kind, frame in reversed(self.scopes):
+                if kind == "finally":
+                    return targets + [frame]
                 targets += [node for _, node in frame]
             return targets + [self.cfg.raise_exit]
-        for frame in reversed(self.handlers):
+        for kind, frame in reversed(self.scopes):
+            if kind == "finally":
+                return [frame]
             for caught, node in frame:
                 if self.exc_matcher(raised, caught):
                     return [node]
@@ -292,7 +299,9 @@ class Builder:
         final_entry: Optional[Node] = None
         if stmt.finalbody:
             final_entry = cfg._new("stmt", None, "finally")
+            final_entry._try = stmt  # type: ignore[attr-defined]
             self.finals.append(final_entry)
+            self.scopes.append(("finally", final_entry))
         frame = []
         handler_nodes = []
         for h in stmt.handlers:
@@ -300,11 +309,13 @@ class Builder:
             frame.append((h.type, hn))
             handler_nodes.append(hn)
         self.handlers.append(frame)
+        self.scopes.append(("handlers", frame))
         try_entry = cfg._new("stmt", None, "try")
         try_entry._try = stmt  # type: ignore[attr-defined]
         self._connect(preds, try_entry)
         body_out = self._block(stmt.body, [try_entry])
         self.handlers.pop()
+        self.scopes.pop()
         else_out = self._block(stmt.orelse, body_out) if stmt.orelse else body_out
         outs = list(else_out)
         for h, hn in zip(stmt.handlers, handler_nodes):
@@ -315,6 +326,7 @@ class Builder:
             self.caught.pop()
         if final_entry is not None:
             self.finals.pop()
+            self.scopes.pop()
             self._connect(outs, final_entry)
             cfg.edge(try_entry, final_entry, "exc")
             fin_out = self._block(stmt.finalbody, [final_entry])
